@@ -426,6 +426,10 @@ def ensure_model():
     """(re)build the OCaml driver of the extracted model: `make coq` re-extracts coq/c13_model.ml whenever
     Gen/Tokens.v changed, the native driver has to follow"""
     import fcntl
+    exe = vlib.model_bin("c13")
+    deps = [os.path.join(vlib.COQ, "c13_model.ml"), os.path.join(vlib.VERIF, "extract", "c13_driver.ml"), os.path.join(vlib.VERIF, "extract", "common.ml")]
+    if os.path.exists(exe) and all(os.path.exists(d) and os.path.getmtime(d) <= os.path.getmtime(exe) for d in deps):
+        return exe
     with open(os.path.join(vlib.COQ, ".make.lock"), "w") as lf:
         fcntl.flock(lf, fcntl.LOCK_EX)
         try:
